@@ -78,6 +78,12 @@ theorem locks_certified : table.locksCertifiedB = true := by decide +kernel
 theorem model_confined_cert : table.modelConfinedIn (reachClaim .controller) (reachClaim .filter) = true := by
   decide +kernel
 
+/-- **must hold**: no function the controller role can reach invokes a hook of the user's filter
+    (`initialization_step`, `filtering_step`, `run_condition`, `log`, and the overriders in `SIS`) -/
+theorem hooks_confined_cert :
+    table.confinedIn hookStateFields (reachClaim .controller) (reachClaim .filter) = true := by
+  decide +kernel
+
 /-! ### consequences (no evaluation) -/
 
 theorem fieldOK_iff (f : Nat) :
